@@ -1,13 +1,12 @@
-SPECIFICATION MCSpec
+SPECIFICATION GSpec
 CONSTANTS
   BufSize = 4
   MaxStream = 7
   MaxCached = 2
   Modes = {"rw", "sp"}
   Relays = {0, 1}
-INVARIANT NoViolation
-INVARIANT TypeOK
-INVARIANT Structure
-INVARIANT MonType
+  MaxCalls = 8
+  MaxIntr = 2
+  MaxAgain = 6
+INVARIANT Emit
 CHECK_DEADLOCK FALSE
-VIEW MCView
